@@ -8,6 +8,7 @@ pub mod c01;
 pub mod c02;
 pub mod c03;
 pub mod c07;
+pub mod c12;
 pub mod c13;
 pub mod c14;
 pub mod c15;
@@ -27,6 +28,7 @@ pub fn lookup(id: &str) -> Option<Entry> {
         "C02" => Entry { id: "C02", run: c02::run, replay: c02::replay },
         "C03" => Entry { id: "C03", run: c03::run, replay: c03::replay },
         "C07" => Entry { id: "C07", run: c07::run, replay: c07::replay },
+        "C12" => Entry { id: "C12", run: c12::run, replay: c12::replay },
         "C13" => Entry { id: "C13", run: c13::run, replay: c13::replay },
         "C14" => Entry { id: "C14", run: c14::run, replay: c14::replay },
         "C15" => Entry { id: "C15", run: c15::run, replay: c15::replay },
